@@ -448,7 +448,7 @@ func (it *Interp) convert(v Value, from, to types.Type) Value {
 			if x.IsConst() {
 				return concStr(string(rune(sext64(x.Val, x.W))))
 			}
-			it.unsupported("symbolic rune to string")
+			return it.runeToString(x, from)
 		}
 		tw, _, ok := intWidth(to)
 		if !ok {
@@ -1027,4 +1027,30 @@ func (it *Interp) zeroOrNil(t types.Type) Value {
 		return nil
 	}
 	return it.zero(t)
+}
+
+// runeToString converts a symbolic integer to its UTF-8 string (case split on the encoding length).
+func (it *Interp) runeToString(x *Term, from types.Type) Value {
+	ts := it.ts
+	_, signed, _ := intWidth(from)
+	v := ts.Resize(x, 64, signed)
+	c := func(n uint64) *Term { return ts.Const(64, n) }
+	b8 := func(t *Term) *Term { return ts.Extract(t, 7, 0) }
+	or8 := func(hi uint64, t *Term) *Term { return ts.Bin(OpBvOr, ts.Const(8, hi), b8(t)) }
+	shr := func(t *Term, k uint64) *Term { return ts.Bin(OpBvLshr, t, c(k)) }
+	low6 := func(t *Term) *Term { return ts.Bin(OpBvAnd, t, c(0x3f)) }
+	bad := &Str{conc: "\uFFFD"}
+	switch {
+	case it.decide(ts.Ult(v, c(0x80)), "rune < 0x80"):
+		return it.mkStr([]*Term{b8(v)})
+	case it.decide(ts.Ult(v, c(0x800)), "rune < 0x800"):
+		return it.mkStr([]*Term{or8(0xc0, shr(v, 6)), or8(0x80, low6(v))})
+	case it.decide(ts.And(ts.Ule(c(0xd800), v), ts.Ule(v, c(0xdfff))), "surrogate"):
+		return bad
+	case it.decide(ts.Ult(v, c(0x10000)), "rune < 0x10000"):
+		return it.mkStr([]*Term{or8(0xe0, shr(v, 12)), or8(0x80, low6(shr(v, 6))), or8(0x80, low6(v))})
+	case it.decide(ts.Ule(v, c(0x10ffff)), "rune <= 0x10ffff"):
+		return it.mkStr([]*Term{or8(0xf0, shr(v, 18)), or8(0x80, low6(shr(v, 12))), or8(0x80, low6(shr(v, 6))), or8(0x80, low6(v))})
+	}
+	return bad
 }
